@@ -24,3 +24,4 @@ LEVEL_TEXT = ("Static verdict on necessary structural clauses of C09, for all in
 LEVEL_NOTE = ("Trusted: clang 14 front end and CFG builder, the echse-facts extractor, the python rule engines. Assumes the snapshot's "
               "configure-time config.h; use-after-free and numeric work bounds are not decided.")
 TECHNIQUE = "static analysis: forward must-facts dataflow and loop analysis over clang CFGs, table/extent agreement"
+READY = True
